@@ -24,14 +24,14 @@ fi
 run() { # patch, checks...
   p=$1; shift
   if [ -n "$ONLY" ] && ! echo "$p" | grep -Eq -e "$ONLY"; then return; fi
-  git -C $M/repo checkout -q -- . ; 
+  git -C $M/repo checkout -q -- . ; git -C $M/repo clean -fdq
   if ! git -C $M/repo apply "$p" 2>/dev/null; then printf "%s\t-\tDOES-NOT-APPLY\n" "$p" >> $out; return; fi
   for c in "$@"; do
     ./check $c $tier > $M/run.out 2>&1; code=$?
     keys=$(grep -E "^VIOLATION" $M/run.out | sed 's|.*replay=.*/||; s|.json||' | tr '\n' ',' )
     printf "%s\t%s\texit=%s %s\n" "$(echo $p | sed 's|/verif/||')" "$c" "$code" "$keys" >> $out
   done
-  git -C $M/repo checkout -q -- .
+  git -C $M/repo checkout -q -- . ; git -C $M/repo clean -fdq
 }
 related() { # property id -> checks to run
   case $1 in
